@@ -118,7 +118,7 @@ pub fn replay_mapped(case: &Value, tally: &mut Tally) {
         }
     }
     // every truncation to whole elements
-    for t in 1..total {
+    for t in 0..total {     // t = 0: an empty file - if it can be mapped at all, every view on it is refused
         std::fs::write(&path, &buf[..8 * t]).unwrap();
         let map = match MemoryMap::new(&path, MappingMode::ReadOnly) { Ok(m) => m, Err(_) => continue };
         for (k, v) in vals.iter().enumerate() {
